@@ -77,6 +77,19 @@ def prepare(template, data):
         install_coarse_hash()
     if "layout" in data:
         _SV = _seq_value(data)
+    if data.get("unk"):
+        # concrete warm-up outside tracing (type objects and generic bases of the first unknown-key lookup)
+        saved = G.case
+        G.case = data
+        try:
+            if template == "h_getitem_int":
+                h_getitem_int(0, 1, 1, 1)
+            elif template == "h_getitem_slice":
+                h_getitem_slice(None, None, 1, 1, 1)
+        except Exception:
+            pass
+        finally:
+            G.case = saved
     if template == "h_dict_get":
         pairs = []
         for i, (req, many) in enumerate(data["pairs"]):
@@ -119,7 +132,8 @@ def h_getitem_int(key: int, k0: int, k1: int, k2: int) -> bool:
     data = G.case
     typ = tuple if data["typ"] == "tuple" else list
     vis = StubVisitor()
-    ctx = call_context({"self": _SV, "obj": KnownValue(key)}, vis)
+    # "unk": the checker only knows that the key is an int; the run-time key is still the symbolic one
+    ctx = call_context({"self": _SV, "obj": TypedValue(int) if data.get("unk") else KnownValue(key)}, vis)
     val = _ret(impl._sequence_common_getitem_impl(ctx, typ))
     rt = _runtime(data["layout"], (k0, k1, k2))
     if rt is None:
@@ -182,12 +196,17 @@ def h_getitem_slice(a: Optional[int], b: Optional[int], k0: int, k1: int, k2: in
         return skip()
     sl = slice(a, b, step)
     vis = StubVisitor()
-    ctx = call_context({"self": _SV, "obj": KnownValue(sl)}, vis)
+    # "unk": the checker only knows that the key is a slice (x[i:] with i: int)
+    ctx = call_context({"self": _SV, "obj": TypedValue(slice) if data.get("unk") else KnownValue(sl)}, vis)
     val = _ret(impl._sequence_common_getitem_impl(ctx, typ))
     rt = _runtime(data["layout"], (k0, k1, k2))
     if rt is None:
         return skip()
     got = rt[sl]
+    if data.get("unk") and val is _SV and excluded(feat_unk_returns_self=True, nvariadic=sum(1 for m, _ in data["layout"] if m),
+                                                   full=(len(got) == len(rt) and step is None), a=a, b=b):
+        # known finding C01-K1 (region: the unsliced value itself is returned for an unknown slice)
+        return skip()
     if vis.errors:
         return fin(False)
     if isinstance(val, KnownValue):
@@ -395,6 +414,8 @@ def cases(tier: str, seed: int) -> List[Case]:
             t = ((40 if len(layout) < 4 else 100) if nmany <= 1 else 150) if quick else (120 if nmany <= 1 else 900)
             if layout:
                 out.append(Case("h_getitem_int", f"gi:{nm}", data, timeout=t))
+                if len(layout) <= 3 and nmany <= 1:
+                    out.append(Case("h_getitem_int", f"gi:{nm}:unk", dict(data, unk=1), timeout=t))
                 maxn = (len(layout) - nmany) + kmax * nmany
                 for st in steps:
                     if quick and (len(layout) > 3 or nmany > 1 or (st is not None and nmany > 0)):
@@ -403,6 +424,8 @@ def cases(tier: str, seed: int) -> List[Case]:
                         continue
                     d2 = dict(data, step=st, lim=min(8, maxn + 1))
                     out.append(Case("h_getitem_slice", f"gs:{nm}:step{st}", d2, timeout=60 if quick else 300))
+                    if st in (None, -1) and nmany <= 1:
+                        out.append(Case("h_getitem_slice", f"gs:{nm}:step{st}:unk", dict(d2, unk=1), timeout=60 if quick else 300))
             out.append(Case("h_len", f"len:{nm}", data, timeout=t))
     for kind in ("tuple", "list"):
         for n in (1, 3, 5):
